@@ -31,7 +31,8 @@ def long_indicators(chk, yv, quick):
     try:
         for n in names:
             f = os.path.join(wd, "long_%s.ndjson" % n)
-            progs = (2 if n in ANCHORED else 1) if quick else 4
+            # (the twin-peaks counters of AwesomeOscillator need ~800 bars of trend with ripple: every other stream starts with one)
+            progs = (4 if n == "AwesomeOscillator" else 2 if n in ANCHORED else 1) if quick else 6
             ne = lines_of(run_harness(yv, ["ind-record", chk.seed * 100 + 7, progs, 1500 if quick else 5000, 1, f, n]))[0]["events"]
             vfiles.append((f, ne))
             if not quick or n in ANCHORED or n in COUNTER_SIGNALS:
